@@ -372,9 +372,39 @@ def errpath_values():
     return vals
 
 
+NUM_SITES_FRACTION = [s for s in SITES if s[3] == INT_MSG]          # a non-integral number: the same message, ValueError
+NUM_SITES_BIG = [
+    ("from_utf8 element (number)", "print(String.from_utf8([97, K]));", "ValueError", "Expected a positive integer less than 256 but found '%s'."),
+    ("from_ascii element (number)", "print(String.from_ascii([97, K]));", "ValueError", "Expected a positive integer less than 256 but found '%s'."),
+    ("from_code_points element (number)", "print(String.from_code_points([97, K]));", "ValueError",
+     "Expected a positive integer less than 4294967295 but found '%s'."),
+]
+
+
+def long_number_probes():
+    """numbers whose printed form is long (Rust prints doubles without exponent): 10^k and 15 * 10^-(z+2), both signs"""
+    out = []
+    for k in (30, 70, 100, 300):
+        text = "1" + "0" * k
+        assert repr(float(text)) == "1e+%d" % k
+        for src, shown in ((text, text), ("(-%s)" % text, "-" + text)):
+            for name, stmt, kind, msg in NUM_SITES_BIG:
+                out.append(("%s <- %s10^%d" % (name, "-" if shown[0] == "-" else "", k), stmt.replace("K", src), E(kind, msg % shown)))
+            out.append(("display <- 10^%d" % k, "print(%s); print(String.from(%s).len());" % (src, src), [shown, str(len(shown))]))
+    for z in (20, 60, 100, 300):
+        text = "0." + "0" * z + "15"
+        assert repr(float(text)) == "1.5e-%d" % (z + 1)
+        for src, shown in ((text, text), ("(-%s)" % text, "-" + text)):
+            for name, stmt, kind, msg, _ in NUM_SITES_FRACTION:
+                out.append(("%s <- %s1.5e-%d" % (name, "-" if shown[0] == "-" else "", z + 1), stmt.replace("K", src), E("ValueError", msg % shown)))
+            for name, stmt, kind, msg in NUM_SITES_BIG:
+                out.append(("%s <- %s1.5e-%d" % (name, "-" if shown[0] == "-" else "", z + 1), stmt.replace("K", src), E(kind, msg % shown)))
+    return out
+
+
 def errpath_probes():
     """list of (description, statement, expected lines)"""
-    out = []
+    out = long_number_probes()
     for vdesc, v in errpath_values():
         d = display(v)
         src = source(v)
